@@ -313,13 +313,26 @@ def apply_and_check(op, arg, cols, rec):
                 val, ev = (lambda x: x[names[0]]), m[names[0]]
             elif form == "wrong":
                 val, ev, reject = list(range(n + 2)), None, True
+            elif form in ("swap", "read-old"):
+                val, ev = None, None
             if n == 0 and form in ("scalar", "len1"):
                 return  # scalar broadcast onto a zero-row frame is unspecified (DESIGN 3.5)
-            if not reject:
-                expect = [(k, (ev if k == target else v)) for k, v in model]
-                if target not in m:
-                    expect.append((target, ev))
-            call = lambda: d.modify(**{target: val})
+            if form == "swap":
+                # two pairs in one call, both callables: each sees the ORIGINAL frame, so this swaps the columns
+                a, b = names[0], names[-1]
+                expect = [(k, (m[b] if k == a else m[a] if k == b else v)) for k, v in model]
+                call = lambda: d.modify(**{a: (lambda x: x[b]), b: (lambda x: x[a])})
+            elif form == "read-old":
+                # a value for an existing column and, later in the same call, a callable reading that column
+                a = names[0]
+                expect = [(k, (newvals if k == a else v)) for k, v in model] + [("new2", m[a])]
+                call = lambda: d.modify(**{a: list(newvals), "new2": (lambda x: x[a])})
+            else:
+                if not reject:
+                    expect = [(k, (ev if k == target else v)) for k, v in model]
+                    if target not in m:
+                        expect.append((target, ev))
+                call = lambda: d.modify(**{target: val})
         else:
             raise ValueError(op)
     except KeyError:
@@ -390,6 +403,8 @@ def args_for(op, cols):
         for target in [names[0], names[-1], "new"]:
             for form in ("scalar", "len1", "vector", "list", "callable", "wrong"):
                 yield [target, form]
+        yield ["-", "swap"]
+        yield ["-", "read-old"]
 
 
 RESHAPE_OPS = {"select", "unselect", "rename", "cbind", "update", "modify", "rbind_self", "rbind_partner", "colnames",
